@@ -156,6 +156,11 @@ def np_column(kind, values):
         return np.array(values, dtype=np.int32)
     if kind == "uint64":
         return np.array(values, dtype=np.uint64)
+    if kind in ("uint8", "int16", "uint16", "int8"):
+        return np.array(values, dtype=kind)
+    if kind in ("datetime_s", "datetime_ms", "datetime_ns"):
+        unit = kind.split("_")[1]
+        return np.array(["NaT" if v is None else v.isoformat() for v in values], dtype=f"datetime64[{unit}]")
     if kind in ("float", "float32"):
         a = np.array([np.nan if v is None else v for v in values], dtype=np.float64)
         return a.astype(np.float32) if kind == "float32" else a
